@@ -105,7 +105,7 @@ def run_getitem(repo, qual, wrapper=False):
     return log
 
 
-@rule("C08.key-provenance", props=["C08", "C10", "C13"], min_instances=6, mutants=[
+@rule("C08.key-provenance", props=["C08", "C10", "C13", "C02"], min_instances=6, mutants=[
     ("operands created with sorted keys", ("operator_dict", "            mv = self.algebra.multivector(name='a', keys=keys_in, symbolcls=self.codegen_symbolcls)", "            mv = self.algebra.multivector(name='a', keys=tuple(sorted(keys_in)), symbolcls=self.codegen_symbolcls)")),
     ("binary operands created in reversed order", ("operator_dict", "                   for name, keys in zip(string.ascii_lowercase, keys_in)]\n            keys_out, func = do_codegen", "                   for name, keys in zip(string.ascii_lowercase, reversed(keys_in))]\n            keys_out, func = do_codegen")),
     ("both operands share one name", ("operator_dict", "            mvs = [self.algebra.multivector(name=name, keys=keys, symbolcls=self.codegen_symbolcls)", "            mvs = [self.algebra.multivector(name='a', keys=keys, symbolcls=self.codegen_symbolcls)")),
@@ -159,7 +159,7 @@ def key_provenance(ctx):
                 ctx.ok(c, fn, created=log["created"])
 
 
-@rule("C08.symbolic-operand-order", props=["C08", "C02"], min_instances=2, mutants=[
+@rule("C08.symbolic-operand-order", props=["C08", "C02"], min_instances=5, mutants=[
     ("symbolic operands always canonical", ("multivector", "            keys = algebra.indices_for_grades[grades] if not keys else keys\n            values = list(symbolcls", "            keys = tuple(k for k in algebra.indices_for_grades[grades] if not keys or k in keys)\n            values = list(symbolcls")),
 ])
 def symbolic_operand_order(ctx):
@@ -170,7 +170,10 @@ def symbolic_operand_order(ctx):
     repo = ctx.repo
     q = "multivector.MultiVector.__new__"
     fn = ctx.func(q)
-    for label, keys, want in (("3-D shuffled", (6, 1, 7, 3), ["a23", "a1", "a123", "a12"]), ("binary-order full 2-D", (0, 1, 2, 3), ["a", "a1", "a2", "a12"])):
+    for label, keys, want in (("3-D shuffled", (6, 1, 7, 3), ["a23", "a1", "a123", "a12"]), ("binary-order full 2-D", (0, 1, 2, 3), ["a", "a1", "a2", "a12"]),
+                              ("complete grade, permuted", (4, 1, 2), ["a3", "a1", "a2"]),
+                              ("binary-order full 3-D", tuple(range(8)), ["a", "a1", "a2", "a12", "a3", "a13", "a23", "a123"]),
+                              ("two complete grades, reversed", (6, 5, 3, 4, 2, 1), ["a23", "a13", "a12", "a3", "a2", "a1"])):
         c = f"{q}#symbolic:{label}"
         alg = rep_algebra(3 if max(keys) > 3 else 2)
         it = make_interp(repo)
